@@ -45,13 +45,16 @@ TWO == <<P("world", "B", 1), P("world", "BE", 1)>>
 ODD == <<P("world", "A", 1), P("A", "A", 1), P("A", "B", 0), P("A", "B", 1)>>
 
 \* C02: racing for the 3 units on A, source named in every way a script can; revert of the funding tx
-PalFunds == <<Create(AB, "lit"), Create(AC, "var"), Create(PB, "meta"), Create(AC, "allot"), Create(AC, "max"), Create(AC, "seq"),
+PalFunds == <<Create(AB, "lit"), Create(AC, "var"), Create(AC, "alias"), Create(PB, "meta"), Create(AC, "allot"), Create(AC, "max"), Create(AC, "seq"),
               Create(AB, "bal"), CreateOd(A2), Revert(0, FALSE), SetAcct("M", "C")>>
 \* C11: one reference, disjoint sources, competitor succeeding or failing
-PalRef == <<CreateRef(WB, "r1"), CreateRef(WC, "r1"), CreateRef(A2, "r1"), CreateRef(AB, "r2")>>
+\* ... and a revert of the transaction that took the reference (a reverted transaction keeps its reference)
+PalRef == <<CreateRef(WB, "r1"), CreateRef(WC, "r1"), CreateRef(A2, "r1"), CreateRef(AB, "r2"), Revert(1, FALSE)>>
 \* C07: duplicates of one key, of each kind, and retries after a restart
 PalIk == <<CreateIk(WB, "k1", 0), CreateIk(WB, "k1", 1), CreateIkDry(WB, "k1"), CreateIkMeta(WC, "k4", 0), CreateIkMeta(WC, "k4", 1), SetAcctIk("B", "v", "k2", 0), SetAcctIk("B", "v", "k2", 1),
-           RevertIk(0, "k3", 0), RevertIk(0, "k3", 1), RevertIk(1, "k3", 1)>>
+           RevertIk(0, "k3", 0), RevertIk(0, "k3", 1), RevertIk(1, "k3", 1),
+           \* one key used by writes of different kinds
+           SetAcctIk("B", "v", "k1", 0), RevertIk(0, "k2", 1)>>
 \* C10: racing reverts, forced and not, racing with a spend of the funds
 PalRevert == <<Revert(0, FALSE), Revert(0, TRUE), Create(AB, "lit"), Create(ABC, "lit"), Create(ODD, "lit"), Create(TWO, "lit"), Revert(1, FALSE), Revert(1, TRUE)>>
 \* C05 / C06 / C16: every kind of writer
